@@ -4,8 +4,9 @@
    value; `fits s`: fewer than ST_HUGE_BUFFER_SIZE = 2^28 units.  Every statement holds
    for EVERY validation mode m (so the mode is irrelevant on well-formed text) and, for
    Latin-1 targets, for both settings of the out-of-range flag.                          *)
-From Coq Require Import NArith List Bool.
+From Coq Require Import NArith ZArith List Bool.
 From ST Require Import Base.Outcome Base.Units Utf.Spec Utf.Tokens Utf.Model Utf.ProofsC01 Utf.ApiCoverage.
+From ST Require Gen.Leaf Utf.LoopBridge Utf.LoopBridgeExtract.
 Import ListNotations.
 Local Open Scope N_scope.
 
@@ -86,3 +87,19 @@ Proof. exact std_nonvacuous. Qed.
 Theorem every_route_is_modelled : ST.Utf.ApiCoverage.routes_covered_b = true.
 Proof. exact ST.Utf.ApiCoverage.routes_covered. Qed.
 Print Assumptions every_route_is_modelled.
+
+(* ---- tie by translation, decoders: extract_utf8(const unsigned char *&, end) and extract_utf16(const char16_t *&, end) — the
+   decoding step of every UTF-8 / UTF-16 -> X conversion — are translated from the CURRENT headers into Gen/Leaf.v (the
+   advanced pointer is an index returned with the result).  For every non-empty suffix of units they return the code
+   point or in-band error mark the model decoders of every theorem above return, and consume the same number of units
+   (ext_ok: the model yields (ch, skipn k s) with 1 <= k <= length s, the translated function (ch, i + k), ch < 2^32) ---- *)
+Theorem decoders_match_source : forall s i p, s <> [] -> ST.Utf.LoopBridge.shows Z.of_N p i s ->
+  (all_lt 256 s = true ->
+     ST.Utf.LoopBridgeExtract.ext_ok (extract_utf8 s) (ST.Gen.Leaf.src_extract_utf8 p i (i + Z.of_nat (length s))%Z) s i) /\
+  (all_lt 65536 s = true ->
+     ST.Utf.LoopBridgeExtract.ext_ok (extract_utf16 s) (ST.Gen.Leaf.src_extract_utf16 p i (i + Z.of_nat (length s))%Z) s i).
+Proof.
+  exact (fun s i p Hne R => conj (fun A => ST.Utf.LoopBridgeExtract.extract_utf8_matches s i p Hne A R)
+                                 (fun A => ST.Utf.LoopBridgeExtract.extract_utf16_matches s i p Hne A R)).
+Qed.
+Print Assumptions decoders_match_source.
